@@ -539,6 +539,12 @@ func main() {
 	r.Cases("garbage", r.N(40000, 2000000), hv, garbageCase)
 	r.Cases("openssl", r.N(300, 15000), ev.Opt{HangViolation: true, MaxCaseSeconds: 120, Workers: 16}, opensslCase)
 	r.Cases("stream/large", r.N(12, 600), hv, streamLargeCase)
+	r.Cases("secret-buffer-reuse", r.N(4000, 150000), ev.Opt{HangViolation: true, Serial: true}, secretReuseCase)
+	r.Cases("big", r.N(12, 300), ev.Opt{Workers: 6, MaxCaseSeconds: 300}, bigCase)
+	r.CasesProc("cold-start", 8, ev.Opt{Procs: 8}, coldCase)
+	r.Require("secret_buffer_reuse_cases", 2000)
+	r.Require("big_cases", 10)
+	r.Require("cold_start_cases", 8)
 	// zero-copy string<->[]byte views under every entry point: one pass with checkptr (-race build)
 	r.CasesProc("cbc/checkptr", r.N(60, 1200), ev.Opt{Bin: "race", Procs: 8}, cbcCase)
 	r.CasesProc("gcm/checkptr", r.N(60, 1200), ev.Opt{Bin: "race", Procs: 8}, gcmCase)
@@ -584,5 +590,6 @@ func main() {
 	} else {
 		r.Add("openssl_binary_absent", 1)
 	}
+	r.Assume("the high-level entry points leave the caller's message, secret and additional-data buffers intact (a message may be decrypted more than once, e.g. when trying several secrets), and use the secret bytes as they are at the time of each call")
 	r.Finish()
 }
